@@ -42,11 +42,11 @@ module P = struct
     | OErr EIndex -> "err:IndexError"
   let toks q = ints (L.map (fun r -> int_of_nat r.r_tok) q)
   let line ((r, ts), s) =
-    Printf.printf "%s|%s|%s|%s|%s|%s|%s|%s\n" (out_str r)
+    Printf.printf "%s|%s|%s|%s|%s|%s|%s|%s|%d\n" (out_str r)
       (ints (L.map int_of_nat ts))
       (ints (L.map (fun it -> int_of_nat (fst it)) s.items))
       (toks s.putq) (toks s.putres) (toks s.getq) (toks s.getres)
-      (ints (L.map (fun it -> int_of_z (snd it)) s.items))
+      (ints (L.map (fun it -> int_of_z (snd it)) s.items)) (int_of_z s.now)
   let case hdr ops =
     (* hdr: CASE storep <kind> <cap> <tdelay> *)
     let s0 = init (kind_of (L.nth hdr 2)) (nat_of_int (int_of_string (L.nth hdr 3)))
